@@ -195,7 +195,7 @@ func (c08Prop) Execute(p *Plan, run *Run) any {
 		return map[string]any{"skipped": err.Error()}
 	}
 	data := bf.Bytes
-	target := bf.Desc.Type
+	target := targetFor(bf.Desc.Type, pl.Chunks.Project)
 	run.Probes.Inc("type:" + pl.File.Type + "/" + pl.File.Writer)
 
 	narrow := func(b int) *Plan {
@@ -296,7 +296,7 @@ func (c08Prop) Execute(p *Plan, run *Run) any {
 		cls, bpos := cutClass(c, b)
 		run.Log.Add("cut %d n=%d err=%v", b, len(out.Delivered), out.Err != nil)
 		if b > 0 && b < len(data) {
-			run.Sig("%s|%s|%s|%s|%s", pl.File.Codec, pl.File.Writer, cls, bpos, pl.Chunks.class())
+			run.Sig("%s|%s|%s|%s|%s|proj%d", pl.File.Codec, pl.File.Writer, cls, bpos, pl.Chunks.class(), pl.Chunks.Project)
 		}
 		if out.Panic != nil {
 			run.Violation("c08/panic", out.PanicSite, fmt.Sprintf("cut %d of %d (%s): panic: %v", b, len(data), cls, out.Panic), narrow(b))
